@@ -317,7 +317,11 @@ pub fn render_string(r: &mut Rng, lay: &Layout, out: &mut Vec<u8>, cps: &[u32]) 
         };
         let must = cp < 0x20 || cp == 0x22 || cp == 0x5C;
         // 0 literal, 1 short escape, 2 \u form
-        let form = if must {
+        let form = if lay.esc_mode == 2 {
+            2 // sweep: everything as \uXXXX (pairs for astral)
+        } else if lay.esc_mode == 3 && !must {
+            0 // sweep: everything literal that may be
+        } else if must {
             if short.is_some() && (lay.esc_mode == 0 || r.coin()) {
                 1
             } else {
@@ -821,6 +825,30 @@ pub fn gen_doc(r: &mut Rng, family: &'static str, large_bytes: usize) -> Option<
                 _ => r.pick(&picks).clone(),
             }
         }
+        "usweep-u" | "usweep-lit" => {
+            // every BMP scalar value (and a sample of every astral plane) once, 256 per string;
+            // esc_mode 2 writes them all as \uXXXX, 3 writes them literally where JSON allows
+            lay.esc_mode = if family == "usweep-u" { 2 } else { 3 };
+            let mut v = vec![];
+            let mut cur: Vec<u32> = vec![];
+            for cp in 0u32..0x10000 {
+                if (0xD800..=0xDFFF).contains(&cp) {
+                    continue;
+                }
+                cur.push(cp);
+                if cur.len() == 256 {
+                    v.push(Node::Str(std::mem::take(&mut cur)));
+                }
+            }
+            for plane in 1u32..=16 {
+                cur.extend([plane << 16, (plane << 16) + 0xFFFF, (plane << 16) + 0x3FF, (plane << 16) + 0x400]);
+                for _ in 0..12 {
+                    cur.push((plane << 16) + r.below(0x10000) as u32);
+                }
+            }
+            v.push(Node::Str(cur));
+            Node::Arr(v)
+        }
         "scalar" => match r.below(6) {
             0 => Node::True,
             1 => Node::False,
@@ -905,13 +933,16 @@ pub const BAD_CURSOR: i64 = -3;
 
 /// Cursor identity = preorder number = number of opens before its BP position.
 pub fn cid<W: AsRef<[u64]>>(c: &JsonCursor<'_, W>) -> i64 {
-    let bp = c.index().bp();
-    let p = c.bp_position();
-    if bp.is_open(p) {
-        bp.rank1(p) as i64
-    } else {
-        BAD_CURSOR
-    }
+    guarded(|| {
+        let bp = c.index().bp();
+        let p = c.bp_position();
+        if bp.is_open(p) {
+            bp.rank1(p) as i64
+        } else {
+            BAD_CURSOR
+        }
+    })
+    .unwrap_or(PANIC)
 }
 
 pub fn ocid<W: AsRef<[u64]>>(c: &Option<JsonCursor<'_, W>>) -> i64 {
